@@ -174,7 +174,6 @@ class ConcatenatedOption(ConfigOption[Sequence[T]]):
         for instance in instances:
             if instance.is_applicable_to(module_path):
                 values += instance.value
-        values += cls.default_value
         return values
 
 
